@@ -74,6 +74,22 @@ assume: io_open_src/io_open_dest/io_close/io_read/io_write, the liblzma initiali
 */
 
 /*@obligation
+id: C09.xz.settings.chains
+props: C09
+entry: h_settings2
+flags: xz
+kind: bounded
+bound: two filter chains selected through --block-list (--filters1, --filters2), single-threaded, each dictionary below 5 MiB with arbitrary low bits; estimates arbitrary per call and per chain
+unwind: 12
+fn: coder_set_compression_settings get_chains_memusage memlimit_too_small
+sentinels: 3
+expect: 20
+replay: none
+timeout: 1200
+desc: the per-chain part of xz's memory adjustment: with two filter chains in use, on normal return EVERY chain's last estimate is <= the limit and was computed for the dictionary size that chain is left with -- a chain that already fits must not stop the others from being adjusted; dictionaries are only lowered (to a positive multiple of 1 MiB) and only with auto-adjust; otherwise the function ends in an error exit
+assume: as C09.xz.settings; the estimator stub tells the chains apart by the filter array it is given
+*/
+/*@obligation
 id: C09.xz.settings
 props: C09
 entry: h_settings
@@ -119,7 +135,7 @@ struct in {
 	size_t rd[6]; uint8_t rd_eof[6], rd_fail[6], wr_fail[6];
 	uint8_t open_src_fail, open_dest_fail, coder_result, props_fail, force, to_stdout, format; uint32_t init_ret, props_dict;
 	/* settings */
-	uint64_t limit, limit_mt, est[32], mt_block; uint32_t threads, dict_size; uint8_t mt_default, auto_adjust, bcj, lzma1, use_preset;
+	uint64_t limit, limit_mt, est[32], mt_block; uint32_t threads, dict_size, dict2[3]; uint8_t mt_default, auto_adjust, bcj, lzma1, use_preset;
 };
 static struct in IN VERIF_IN_INIT;
 
@@ -246,7 +262,20 @@ static uint64_t est_stub(bool mt, uint32_t threads)
 	G.last_est = IN.est[k]; G.last_mt = mt; G.last_threads = threads; G.last_dict = o->dict_size;
 	return IN.est[k];
 }
-uint64_t lzma_raw_encoder_memusage(const lzma_filter *f) { (void)f; return est_stub(false, 1); }
+static lzma_options_lzma SOPT2[3];
+static bool g_two_chains;
+static struct { uint64_t last_est[3]; uint32_t last_dict[3]; unsigned n[3]; } G2;
+static uint64_t est_stub2(const lzma_filter *f)
+{
+	const unsigned k = G.ests++;
+	__CPROVER_assume(k < EST_MAX);
+	__CPROVER_assume(IN.est[k] != UINT64_MAX);
+	const unsigned c = f == chains[1] ? 1 : 2;
+	ASSERT(f == chains[1] || f == chains[2], "estimates are asked for the chains in use only");
+	G2.last_est[c] = IN.est[k]; G2.last_dict[c] = SOPT2[c].dict_size; ++G2.n[c];
+	return IN.est[k];
+}
+uint64_t lzma_raw_encoder_memusage(const lzma_filter *f) { if (g_two_chains) return est_stub2(f); return est_stub(false, 1); }
 uint64_t lzma_raw_decoder_memusage(const lzma_filter *f) { (void)f; return est_stub(false, 1); }
 uint64_t lzma_stream_encoder_mt_memusage(const lzma_mt *o) { return est_stub(true, o->threads); }
 uint64_t lzma_mt_block_size(const lzma_filter *f) { (void)f; return IN.mt_block; }
@@ -420,4 +449,35 @@ void h_settings(void)
 	if (was_mt && !now_mt) { ASSERT(IN.auto_adjust && !IN.mt_default, "multi-threaded mode is dropped only with auto-adjust and a user-specified limit"); REACH(st_mt_dropped); }
 	REACH_IF(was_mt && now_mt && now_threads < IN.threads && now_threads > 1, st_threads_reduced);
 	REACH_IF(!IN.compress, st_raw_decode);
+}
+
+
+/* two chains through --block-list, single-threaded */
+static block_list_entry BL[2];
+void h_settings2(void)
+{
+	HAVOC(IN, struct in);
+	ASSUME(IN.auto_adjust <= 1);
+	for (unsigned c = 1; c <= 2; ++c) ASSUME(IN.dict2[c] >= 4096 && IN.dict2[c] < (5u << 20));
+	setup(); g_settings_mode = true; g_two_chains = true; memset(&G2, 0, sizeof(G2));
+	IN.threads = 1; g_mt = false;
+	opt_mode = MODE_COMPRESS; opt_format = FORMAT_XZ; opt_auto_adjust = IN.auto_adjust; opt_flush_timeout = 0;
+	BL[0].size = 65536; BL[0].chain_num = 1; BL[1].size = 0; BL[1].chain_num = 2;
+	opt_block_list = BL; block_list_largest = 65536; block_list_chain_mask = 6; chains_used_mask = 6; check_default = true;
+	filters_count = 0;
+	for (unsigned c = 1; c <= 2; ++c) {
+		SOPT2[c].dict_size = IN.dict2[c];
+		chains[c][0].id = LZMA_FILTER_LZMA2; chains[c][0].options = &SOPT2[c]; chains[c][1].id = LZMA_VLI_UNKNOWN;
+	}
+	coder_set_compression_settings();
+	for (unsigned c = 1; c <= 2; ++c) {
+		ASSERT(G2.n[c] >= 1 && G2.last_est[c] <= IN.limit, "on normal return EVERY chain's last estimate is within the memory limit");
+		ASSERT(G2.last_dict[c] == SOPT2[c].dict_size, "and was computed for the dictionary size the chain is left with");
+		ASSERT(SOPT2[c].dict_size <= IN.dict2[c], "dictionaries are only lowered");
+		if (SOPT2[c].dict_size != IN.dict2[c])
+			ASSERT(IN.auto_adjust && SOPT2[c].dict_size >= (1u << 20) && (SOPT2[c].dict_size & ((1u << 20) - 1)) == 0, "reduced only with auto-adjust, to a positive multiple of 1 MiB");
+	}
+	REACH(st2_return);
+	REACH_IF(SOPT2[2].dict_size != IN.dict2[2] && SOPT2[1].dict_size == IN.dict2[1], st2_second_only_reduced);
+	REACH_IF(SOPT2[1].dict_size != IN.dict2[1] && SOPT2[2].dict_size != IN.dict2[2], st2_both_reduced);
 }
